@@ -74,7 +74,8 @@ Section Machine.
         | [] => inr (Fail IndexError (lg st))
         | (p0, new_items) :: nr =>
             let v := ONode id k (build erase k new_items) in                      (* exit(...) *)
-            let st' := mkSt rest (t_set (reg st) id v) nr p0 (lg st) v in
+            let st' := mkSt rest (t_set (reg st) id v) nr p0
+                            (lg st ++ [EExit p0 ky id (shallow_items new_items)]) v in
             match nr with
             | [] => inl st'                                                       (* if not new_items_stack: continue *)
             | _ => visit_phase st' ky v
